@@ -577,6 +577,51 @@ def sc_ahb_par(name, evals, rc, expected, slow):
     return Scenario("evaluate_ahb_expression_tree (several concurrently)", name, {"evaluations": [list(e) for e in evals], "rc": rc, "expected": expected}, slots, fn)
 
 
+BARE_REFS = {}   # AHB expression without conditions -> its result, taken at the very start of the run (before anything else was evaluated in this process)
+
+
+def bare_references():
+    from ahbicht.expressions.ahb_expression_evaluation import evaluate_ahb_expression_tree
+    from ahbicht.expressions.ahb_expression_parser import parse_ahb_expression_to_single_requirement_indicator_expressions as parse
+
+    H = harness()
+    for e in ("Muss", "Soll", "Kann", "X", "Muss Kann"):
+        H.reset()
+
+        async def one(e=e):
+            return await evaluate_ahb_expression_tree(parse(e))
+
+        BARE_REFS.setdefault(e, canon(H.run(one)))
+
+
+def sc_ahb_mixed(name, exprs, rc, slow):
+    """several AHB expressions evaluated concurrently, among them expressions without any condition: their result is the one such an expression has when it is the
+    first thing the process evaluates (BARE_REFS) -- whichever part another evaluation chose in the meantime"""
+    H = harness()
+    slots = [(tag, 0) for tag in slow]
+
+    def fn(sc, yields):
+        from ahbicht.expressions.ahb_expression_evaluation import evaluate_ahb_expression_tree
+        from ahbicht.expressions.ahb_expression_parser import parse_ahb_expression_to_single_requirement_indicator_expressions as parse
+
+        async def one(e):
+            return await evaluate_ahb_expression_tree(parse(e))
+
+        async def main():
+            return await asyncio.gather(*[one(e) for e in exprs])
+
+        H.reset(rc=rc, yields=yields)
+        out = H.run(main)
+        leaks = []
+        if out[0] == "ok":
+            for e, r in zip(exprs, out[1]):
+                if e in BARE_REFS and canon(("ok", r)) != BARE_REFS[e]:
+                    leaks.append(("not-own", e, BARE_REFS[e], canon(("ok", r))))
+        return canon(out) + ("|LEAK " + repr(leaks) if leaks else ""), []
+
+    return Scenario("evaluate_ahb_expression_tree (several concurrently)", name, {"expressions": list(exprs), "rc": rc}, slots, fn)
+
+
 # -- parse_expression_including_unresolved_subexpressions(resolve_packages=True)
 PKG = {"1P": ("[1] U [2]", ["1", "2"]), "2P": ("[3]", ["3"]), "3P": ("[4] O ([5] U [6])", ["4", "5", "6"]), "4P": ("[7][901]", ["7", "901"])}
 
@@ -865,6 +910,8 @@ def scenarios(ctx):
     # several AHB evaluations in flight, one format constraint, different entered texts (two of them the same): who finishes when must not matter to whose verdict it is
     allf = {k: "FULFILLED" for k in RC_KEYS[:4]}
     S.append(sc_ahb_par("ahb-par-texts", [("a", "1", "901"), ("bb", "2", "901"), ("bb", "3", "901")], allf, {"901": "bb"}, [("rc", "3"), ("fc", "901", "a"), ("fc", "901", "bb")]))
+    # an evaluation whose chosen part has no condition next to evaluations of bare modal marks
+    S.append(sc_ahb_mixed("ahb-bare-chosen", ["Muss [1] Kann", "Muss", "Kann", "Soll [2] Muss"], {"1": "UNFULFILLED", "2": "UNFULFILLED", "3": "FULFILLED", "4": "FULFILLED"}, [("rc", "1"), ("rc", "2")]))
     S.append(sc_ahb_par("ahb-par-texts2", [("bb", "1", "901"), ("a", "2", "901"), ("a", "3", "902"), ("bb", "4", "901")], allf, {"901": "bb", "902": "a"},
                         [("rc", "4"), ("rc", "2"), ("fc", "901", "bb"), ("fc", "901", "a")]))
     # packages, also repeated
@@ -1018,6 +1065,7 @@ def run(ctx):
     terms, meta, seen = [], [], set()
     n_runs = n_nontrivial = 0
     exhaustive = []
+    bare_references()   # first of all
     n_runs += concurrent_data_oracle(ctx)
     from vlib import cerconc
 
